@@ -57,6 +57,8 @@ import PyYetiVerif.Props.C17CdfConv
 #print axioms PyYetiVerif.C17.nonlin_z_is_callback_output
 #print axioms PyYetiVerif.C17.def_nonlin_call_sequence
 #print axioms PyYetiVerif.C17.def_nonlin_copies_at_call
+#print axioms PyYetiVerif.C17.nonlin_rf_nonrf_part_is_run
+#print axioms PyYetiVerif.C17.nonlin_rf_placement_irrelevant
 #print axioms PyYetiVerif.C17.mNone_is_identity_mass
 #print axioms PyYetiVerif.C17.mNone_scalar_coefficients
 #print axioms PyYetiVerif.C17.rf_rows_static_full
